@@ -10,6 +10,7 @@ import http.client
 import inspect
 import itertools
 import logging
+import os
 import random
 import re
 import socket
@@ -42,7 +43,8 @@ R = Run('tocimxmlstr of all 9 CIM object kinds + module tocimxml over 14 types x
         'string-capable parameter, InvokeMethod values of every CIM type in 3 passing styles, Iter* in 3 pull modes, '
         'Open/Pull/Close sequences (thorough: + seeded k-way samples); listener responses over loopback')
 
-DTD = etree.DTD('/repo/tests/dtd/DSP0203_2.3.1.dtd' if True else None)
+DTD_FILE = os.path.join('tests', 'dtd', 'DSP0203_2.3.1.dtd')
+DTD = etree.DTD(DTD_FILE if os.path.exists(DTD_FILE) else os.path.join('/repo', DTD_FILE))
 PARSER = etree.XMLParser(resolve_entities=False, no_network=True, remove_blank_text=False)
 RND = random.Random(R.seed)
 THOROUGH = R.tier == 'thorough'
@@ -180,7 +182,7 @@ def check_document(doc, channel, inputs, detail, expect=None, roots=None, depth=
     if not DTD.validate(root):
         for err in DTD.error_log:
             sig = dtd_signature(err.message)
-            V(expect.get(sig, sig), dtd_error=err.message[:300], output=text[:600], **detail)
+            V(expect.get(sig, sig.split(':got(')[0]), dtd_error=err.message[:300], output=text[:600], **detail)
     check_embedded(root, channel, inputs, detail, expect, depth)
     return root
 
@@ -214,7 +216,8 @@ def check_embedded(root, channel, inputs, detail, expect, depth):
             if not DTD.validate(sub):
                 for err in DTD.error_log:
                     sig = 'embedded:' + dtd_signature(err.message)
-                    V(expect.get(sig, sig), dtd_error=err.message[:300], embedded=txt[:400], **detail)
+                    V(expect.get(sig, sig.split(':got(')[0]), dtd_error=err.message[:300], embedded=txt[:400],
+                      **detail)
             check_embedded(sub, channel, inputs, detail, expect, depth + 1)
 
 
@@ -386,11 +389,13 @@ def compare_uri(uri, model, nested, issues):
                     issues.append('real-key-uses-repr')
                 elif txt != val:
                     issues.append('numeric-key-differs')
-        else:
+        elif vt == 'ref':
             if kind != 'q':
                 issues.append('reference-key-not-quoted')
             else:
                 compare_uri(txt, val, True, issues)
+        else:
+            issues.append('body-keyvalue-valuetype-unknown')
 
 
 HDR_KNOWN = {
@@ -708,7 +713,10 @@ def part1_grids():
                      lambda: CIMInstanceName('C', {'k': v1}, namespace=ns, host=host),
                      render=lambda o: o.tocimxmlstr(ignore_host=ih, ignore_namespace=ins), benign=True)
     for nkeys in (0, 2, 3):
-        for combo in itertools.islice(itertools.combinations(keyvals, nkeys), 0, 400 if THOROUGH else 60):
+        combos = list(itertools.combinations(keyvals, nkeys))
+        if not THOROUGH and len(combos) > 60:
+            combos = RND.sample(combos, 60)
+        for combo in combos:
             obj_case(('inameN', tuple(c[0] for c in combo)),
                      lambda: CIMInstanceName('C', [('k%d' % i, c[1]) for i, c in enumerate(combo)], namespace='n'),
                      benign=True)
@@ -734,11 +742,11 @@ def part1_grids():
 
 
 GOOD_STRS = ['', 'a', ' ', '  lead', 'trail  ', 'x&y', '<', '>', '"', "'", '&amp;', '&#1;', ']]>', '<![CDATA[x]]>',
-             'a]]>b]]>c', ']]', '\t', '\n', '\r', 'a\r\nb', '\x7f', '\x85', ' ', '\xe9', '�', '﷐',
+             'a]]>b]]>c', ']]', '\t', '\n', '\r', 'a\r\nb', '\x7f', '\x85', '\u2028', '\xe9', '\ufffd', '\ufdd0',
              '\U00010000', '\U0010ffff', '%41', '<INSTANCE CLASSNAME="C"/>', '<?xml version="1.0"?>', '<!-- c -->',
              'a/b', 'a:b.c=d,e', 'x' * 5000]
 BAD_STRS = ['\x00', '\x01', '\x08', '\x0b', '\x0c', '\x0e', '\x1f', 'a\x1bb', '\ud800', '\udfff', '\udc00\ud800',
-            'a\ud83d', '￾', '￿', 'a￿b']
+            'a\ud83d', '\ufffe', '\uffff', 'a\uffffb']
 
 
 def string_sinks():
@@ -794,6 +802,83 @@ def string_sinks():
         ('plain-list', lambda s: [s, None], None),
         ('pretty-prop', lambda s: CIMProperty('P', s), lambda o: pywbem.tocimxmlstr(o, indent=2)),
     ]
+
+
+def rnd_str():
+    return RND.choice(GOOD_STRS[:-1])
+
+
+def rnd_value(depth):
+    k = RND.randrange(8 if depth < 3 else 6)
+    if k == 0:
+        return rnd_str()
+    if k == 1:
+        return [rnd_str() for _ in range(RND.randrange(4))] + ([None] if RND.random() < .3 else [])
+    if k == 2:
+        return RND.choice(type_values(RND.choice(TYPES)))
+    if k == 3:
+        t = RND.choice(TYPES)
+        return CIMProperty('x', [RND.choice(type_values(t)) for _ in range(RND.randrange(3))], type=t, is_array=True)
+    if k == 4:
+        return CIMInstanceName(rnd_str(), {rnd_str() or 'k': rnd_str(), 'n': Uint8(1)},
+                               namespace=RND.choice([None, 'a/b', rnd_str()]), host=RND.choice([None, 'h']))
+    if k == 5:
+        return CIMProperty('x', None, type=RND.choice(TYPES), is_array=RND.random() < .5)
+    if k == 6:
+        return rnd_instance(depth + 1)
+    return [rnd_instance(depth + 1) for _ in range(1 + RND.randrange(2))]
+
+
+def rnd_quals():
+    return [CIMQualifier(rnd_str() + str(i), RND.choice([rnd_str(), [rnd_str(), None], Uint8(1), True, None]),
+                         type=None if RND.random() < .8 else 'string', overridable=RND.choice((None, True, False)),
+                         translatable=RND.choice((None, True, False)))
+            for i in range(RND.randrange(3))]
+
+
+def rnd_instance(depth=0):
+    props = []
+    for i in range(RND.randrange(5)):
+        v = rnd_value(depth)
+        name = rnd_str() + str(i)
+        if isinstance(v, CIMProperty):
+            v = CIMProperty(name, v.value, type=v.type, is_array=v.is_array, qualifiers=guarded(rnd_quals))
+        props.append((name, v))
+    return CIMInstance(rnd_str(), props, qualifiers=guarded(rnd_quals) if RND.random() < .3 else None)
+
+
+def rnd_class():
+    props = []
+    for i in range(RND.randrange(4)):
+        v = rnd_value(2)
+        if isinstance(v, CIMProperty):
+            v = v.value
+        props.append(CIMProperty(rnd_str() + str(i), v, qualifiers=guarded(rnd_quals), class_origin=rnd_str(),
+                                 propagated=RND.choice((None, True, False))))
+    meths = [CIMMethod(rnd_str() + str(i), return_type=RND.choice(TYPES), qualifiers=guarded(rnd_quals),
+                       parameters=[CIMParameter(rnd_str() + str(j), RND.choice(TYPES + ['reference']),
+                                                is_array=RND.random() < .5, qualifiers=guarded(rnd_quals))
+                                   for j in range(RND.randrange(4))]) for i in range(RND.randrange(3))]
+    return CIMClass(rnd_str(), properties=props, methods=meths, qualifiers=guarded(rnd_quals), superclass=rnd_str())
+
+
+RND_STATS = [0, 0]
+
+
+def part1_random():
+    """Seeded sampling beyond the grids: nested composites whose names and values are drawn from GOOD_STRS."""
+    for cdata in (False, True):
+        _cim_xml._CDATA_ESCAPING = cdata
+        try:
+            for n in range(8000 if THOROUGH else 250):
+                kind = n % 2
+                RND_STATS[0] += 1
+                if obj_case(('rnd', cdata, kind, n, R.seed), rnd_class if kind else rnd_instance) is not None:
+                    RND_STATS[1] += 1
+        finally:
+            _cim_xml._CDATA_ESCAPING = False
+    if RND_STATS[1] * 2 < RND_STATS[0]:
+        V('random-composites-mostly-not-serialisable', built=RND_STATS[0], serialised=RND_STATS[1])
 
 
 def part1_strings():
@@ -1100,7 +1185,7 @@ def guarded(f):
 
 
 OP_STRS = ['a<b&c>"d\'', ']]>', 'a\tb', '\xe9', '\U00010000', '%41%zz', 'a b', ''] + \
-          ['\x00', '\x01', '\x1f', '\ud800', '\udfff', '￾', '￿']
+          ['\x00', '\x01', '\x1f', '\ud800', '\udfff', '\ufffe', '\uffff']
 
 
 def part2_ops():
@@ -1131,14 +1216,13 @@ def part2_ops():
         strs = OP_STRS if THOROUGH else [x for x in OP_STRS if x not in (']]>', '\U00010000', 'a b', '', '\x1f', '\udfff')]
         for pname, kind, req in params:
             for s in strs:
-                vals = guarded(lambda: inject(kind, s)) or []
+                vals = list(enumerate(guarded(lambda: inject(kind, s)) or []))
                 if not THOROUGH and len(vals) > 3:
                     vals = vals[:2] + RND.sample(vals[2:], 1)
-                for j, val in enumerate(vals):
+                for j, val in vals:
                     kw = dict(base)
                     kw[pname] = val
-                    op_case(('op-str', opname, pname, s, j if THOROUGH else repr(val)[:60]), conn, ad, opname, (), kw,
-                            expect=expect_for(opname, kw))
+                    op_case(('op-str', opname, pname, s, j), conn, ad, opname, (), kw, expect=expect_for(opname, kw))
         # all optional boolean arguments together, all pool maxima together
         for pick in (1, -1):
             kw = dict(base)
@@ -1146,14 +1230,14 @@ def part2_ops():
                 kw[pname] = POOLS[kind][pick]
             op_case(('op-all', opname, pick), conn, ad, opname, (), kw, expect=expect_for(opname, kw))
         # seeded k-way samples
-        for n in range(120 if THOROUGH else 12):
+        for n in range(1000 if THOROUGH else 12):
             kw = dict(base)
             for pname, kind, req in params:
                 if RND.random() < 0.6:
                     kw[pname] = RND.choice(POOLS[kind])
             op_case(('op-rand', opname, n, R.seed), conn, ad, opname, (), kw, expect=expect_for(opname, kw))
     # default namespace of the connection
-    for dns in (None, 'root/cimv2', 'a', '/x/y/', 'interop', 'a b/c', 'root/\xe9', 'r%41', 'n\x01', 'n￿', 'n\ud800'):
+    for dns in (None, 'root/cimv2', 'a', '/x/y/', 'interop', 'a b/c', 'root/\xe9', 'r%41', 'n\x01', 'n\uffff', 'n\ud800'):
         c2, a2 = guarded(lambda: make_conn(default_namespace=dns)) or (None, None)
         if c2 is None:
             R.case(('conn-rejected', dns))
@@ -1233,7 +1317,7 @@ def part2_invoke():
                                 [('a', 'x'), ('a', 'y')], [('A', 'x'), ('a', 'y')], {'a': 'x'}, [['a', 'x']]]):
         op_case(('invoke-degenerate', i), conn, ad, 'InvokeMethod', ('M', 'CIM_Foo', params), {})
     # method names / targets with characters that are unusual in CIM names: header must keep naming the body's
-    names = ['M', 'm_1', 'Mé', 'a b', 'a.b', 'a:b', 'A"B', 'a,b=c', '%41', '100%', 'é', 'Ā', 'x\U00010000y',
+    names = ['M', 'm_1', 'M\xe9', 'a b', 'a.b', 'a:b', 'A"B', 'a,b=c', '%41', '100%', '\xe9', '\u0100', 'x\U00010000y',
              'a\tb', ' a', 'a ', '', 'a\rb', 'a\nb']
     for n in names:
         op_case(('invoke-name', n), conn, ad, 'InvokeMethod', (n, 'CIM_Foo'), {})
@@ -1436,7 +1520,7 @@ def part3_listener():
     rich = rich_instance().tocimxmlstr()      # only used as request payload, not as oracle
     p_rich = '<EXPPARAMVALUE NAME="NewIndication">%s</EXPPARAMVALUE>' % rich
     ids = ['1', '', '42 ', 'a b', '<&>"\'', '\xe9', '\U00010000', 'x' * 3000, '\t', 'a\nb', ' lead', '\x85', ']]>',
-           '&amp;', '%41', '�']
+           '&amp;', '%41', '\ufffd']
     methods = ['Foo', '', '\xe9', '<&"\'>', '\U00010000', 'a\tb', 'x' * 2000, 'exportindication', 'ExportIndication ']
     param_sets = [('ok', p_ok, 'ok'), ('rich', p_rich, 'ok'), ('none', '', 'err'), ('two', p_ok + p_ok.replace(
         'NewIndication', 'Other'), 'err'), ('wrongname', p_ok.replace('NewIndication', xml_attr('New"<Ind>\xe9')), 'err'),
@@ -1467,11 +1551,9 @@ def part3_listener():
         V('listener-could-not-start')
         return
     lis.add_callback(callback)
-    expected_deliveries = 0
     try:
         for i, msgid in enumerate(ids):
             rsp = listener_case(('lis-id', msgid), port, msgid, 'ExportIndication', p_ok, must_be=True)
-            expected_deliveries += 1
             if rsp is not None and len(rsp):
                 V('listener-success-response-not-empty', msgid=msgid)
             listener_case(('lis-id-err', msgid), port, msgid, 'Foo', p_ok, must_be=True)
@@ -1482,19 +1564,15 @@ def part3_listener():
                     V('listener-unknown-method-not-an-error', method=m)
         for label, params, kind in param_sets:
             rsp = listener_case(('lis-params', label), port, '9', 'ExportIndication', params, must_be=True)
-            if kind == 'ok':
-                expected_deliveries += 1
             if rsp is not None and kind is not None and (rsp.find('ERROR') is None) != (kind == 'ok'):
                 V('listener-response-kind-unexpected', params=label, output=_short(etree.tostring(rsp)))
-            if rsp is not None and kind is None and rsp.find('ERROR') is None:
-                expected_deliveries += 1
         # requests the listener rejects at the HTTP level carry no CIM-XML body; anything they do carry is checked
         for label, kw in (('dtd-1.0', {'dtdv': '1.0'}), ('cim-3.0', {'cimv': '3.0'}), ('proto-2.0', {'protov': '2.0'}),
                           ('dtd-2.4', {'dtdv': '2.4'}), ('proto-1.4', {'protov': '1.4'})):
             listener_case(('lis-version', label), port, '1', 'ExportIndication', p_ok, **kw)
         for label, body in (('not-xml', 'garbage'), ('truncated', export_request('1', 'ExportIndication', p_ok)[:150]),
                             ('ctrl-char', export_request('1\x01', 'ExportIndication', p_ok)),
-                            ('ffff', export_request('1￿', 'ExportIndication', p_ok)),
+                            ('ffff', export_request('1\uffff', 'ExportIndication', p_ok)),
                             ('surrogate', export_request('1\ud800', 'ExportIndication', p_ok)),
                             ('imethodcall', export_request('1', 'X', '').replace('EXPMETHODCALL', 'IMETHODCALL')),
                             ('empty', '')):
@@ -1579,7 +1657,7 @@ def part3_listener():
 
 def main():
     before = set(threading.enumerate())
-    parts = (part1_grids, part1_strings, part2_ops, part2_invoke, part2_iter, part3_listener)
+    parts = (part1_grids, part1_strings, part1_random, part2_ops, part2_invoke, part2_iter, part3_listener)
     for part in parts:
         try:
             part()
